@@ -666,6 +666,8 @@ def check_linear(pr, ctx, mesh, rng):
 
     Fa, Fb = lin("fftn", fa, fb, 64 * EPS * s, "fftn is not linear")
     ctx.require(np.array_equal(fa.array, a) and np.array_equal(fb.array, b), "C11.frame", "linear: operand fields changed by fftn")
+    if not isinstance(Fa, df.Field):
+        return                                   # fftn refused: stated above
     # inverse on arbitrary (non-hermitian) k-space data: reuse a, b as k-space fields
     km = Fa.mesh
     ka, kb = (df.Field(km, nvdim=nv, value=x.copy()) for x in (a, b))
@@ -673,6 +675,8 @@ def check_linear(pr, ctx, mesh, rng):
     sh = tuple(n)
     if not cplx:
         Ra, Rb = lin("rfftn", fa, fb, 64 * EPS * s, "rfftn is not linear")
+        if not (isinstance(Ra, df.Field) and isinstance(Rb, df.Field)):
+            return
         # irfftn on k-space data (complex half spectra Ra, Rb)
         lin("irfftn", df.Field(Ra.mesh, nvdim=nv, value=Ra.array.copy()), df.Field(Rb.mesh, nvdim=nv, value=Rb.array.copy()),
             64 * EPS * m, "irfftn is not linear", shape=sh)
@@ -731,7 +735,14 @@ def check_frame(pr, ctx, mesh0, rng):
     eps = EPS32 if dtype in SINGLE else EPS
     watch = _Watch()
     watch.mesh("mesh", mesh0)
-    f = _history_field(pr, mesh0, rng, watch)
+    if pr["hist"] == "fresh":
+        f = _history_field(pr, mesh0, rng, watch)
+    else:
+        r, f = raises(Exception, _history_field, pr, mesh0, rng, watch)
+        ctx.require(not r, "C11.inverse_values", "frame[%s]: a transform / accessor / operator raised while the input field was being produced" % pr["hist"],
+                    sig="history-raises", error=repr(f) if r else None)
+        if r:
+            return
     nv = f.nvdim
     mesh = f.mesh
     cell = np.asarray(mesh.cell, dtype=float)
@@ -871,3 +882,20 @@ def check_frame(pr, ctx, mesh0, rng):
     _again(ctx, f, "fftn", F, where)
     if R is not None:
         _again(ctx, f, "rfftn", R, where)
+    # nothing of the earlier calls sticks to the field: new values (written in place / through the setter) -> their transform
+    new = _typed(rng, (*n, nv), str(f.array.dtype))
+    if pr["seed"] % 2:
+        f.array[...] = new
+    else:
+        f.array = new
+    assert np.array_equal(f.array, new)                                           # harness sanity
+    new = np.array(new, dtype=np.complex128 if cplx else np.float64)
+    nb = 64 * eps * np.sum(np.abs(new.reshape(-1, nv)), axis=0)
+    watch_new = _Watch()
+    r, Fn = _apply(ctx, f, "fftn", watch_new, where + " after new values")
+    ctx.require(not r and Fn.array.shape == (*n, nv) and _cclose(Fn.array, direct_dft(new, _centres(kmesh), cell), nb), "C11.dft_values",
+                where + ": after the field got new values fftn is not the Fourier sum of the new values (stale state of an earlier call?)")
+    if not cplx:
+        r, Rn = _apply(ctx, f, "rfftn", watch_new, where + " after new values")
+        ctx.require(not r and Rn.array.shape == (*nk, nv) and _cclose(Rn.array, direct_dft(new, _centres(Rn.mesh), cell), nb), "C11.rdft_values",
+                    where + ": after the field got new values rfftn is not the Fourier sum of the new values (stale state of an earlier call?)")
